@@ -8,6 +8,8 @@ let rec int_of_pos = function XH -> 1 | XO p -> 2 * int_of_pos p | XI p -> 2 * i
 let int_of_n = function N0 -> 0 | Npos p -> int_of_pos p
 let rec nat_of_int i = if i = 0 then O else S (nat_of_int (i - 1))
 let rec int_of_nat = function O -> 0 | S n -> 1 + int_of_nat n
+let ni s = n_of_int (int_of_string s)
+let si n = string_of_int (int_of_n n)
 
 let bytes_of_hex s =
   if s = "-" then [] else
@@ -16,12 +18,63 @@ let bytes_of_hex s =
 let hex_of_bytes l =
   if l = [] then "-" else String.concat "" (List.map (fun b -> Printf.sprintf "%02x" (int_of_n b)) l)
 
+let llfield = function "0" -> LSig | "1" -> LSize | "2" -> LType | "3" -> LFlags | _ -> LCrc8
+let hlfield = function "0" -> HVersion | "1" -> HType | _ -> HId
+
+let show_w (w : wframe) =
+  Printf.sprintf "F(%d,%d,%d,%s,%s,%s)" (int_of_n w.w_size) (int_of_n w.w_flags) (int_of_n w.w_crc8)
+    (if w.w_ack then "ack" else "data")
+    (match w.w_hdr with None -> "-" | Some h -> si h) (hex_of_bytes w.w_data)
+
+let show_out = function
+  | OWrite b -> "W:" ^ hex_of_bytes b
+  | ODeliver f -> "D:" ^ show_w f
+  | OAckSet -> "A"
+
 let handle toks =
   match toks with
-  | ["crc8"; s; h] -> string_of_int (int_of_n (crc8_from (n_of_int (int_of_string s)) (bytes_of_hex h)))
-  | ["crc16"; s; h] -> string_of_int (int_of_n (crc16_from (n_of_int (int_of_string s)) (bytes_of_hex h)))
-  | ["crc8spec"; h] -> string_of_int (int_of_n (crc8_spec (bytes_of_hex h)))
-  | ["crc16spec"; h] -> string_of_int (int_of_n (crc16_spec (bytes_of_hex h)))
+  | ["crc8"; s; h] -> si (crc8_from (ni s) (bytes_of_hex h))
+  | ["crc16"; s; h] -> si (crc16_from (ni s) (bytes_of_hex h))
+  | ["crc8spec"; h] -> si (crc8_spec (bytes_of_hex h))
+  | ["crc16spec"; h] -> si (crc16_spec (bytes_of_hex h))
+  | ["llget"; f; h] -> si (ll_get (llfield f) (ni h))
+  | ["llwith"; f; h; v] -> si (ll_with (llfield f) (ni h) (ni v))
+  | ["hlget"; f; h] -> si (hl_get (hlfield f) (ni h))
+  | ["hlwith"; f; h; v] -> si (hl_with (hlfield f) (ni h) (ni v))
+  | ["toframe"; h; d; seq] ->
+      (match to_frame (ni h) (bytes_of_hex d) with
+       | None -> "NONE"
+       | Some f -> hex_of_bytes (serialize f) ^ " " ^ hex_of_bytes (serialize (stamp (ni seq) f)))
+  | ["ack"; seq; rt] -> hex_of_bytes (serialize (ack_frame (ni seq) (rt = "1")))
+  | ["frag"; h; d] ->
+      (match to_frame (ni h) (bytes_of_hex d) with
+       | None -> "NONE"
+       | Some f -> String.concat "|" (List.map (fun g -> hex_of_bytes (serialize g)) (tx_fragment f)))
+  | ["specdec"; b] ->
+      (match spec_decode (bytes_of_hex b) with
+       | None -> "NONE"
+       | Some (w, rest) -> show_w w ^ " " ^ string_of_int (List.length rest))
+  | ["claims"; b] ->
+      (match claims (bytes_of_hex b) with None -> "NONE" | Some (sz, fl) -> si sz ^ " " ^ si fl)
+  | ["extract"; b] ->
+      (match extract_frame_x (bytes_of_hex b) with
+       | XF (w, n) -> show_w w ^ " " ^ string_of_int (int_of_nat n)
+       | XShort -> "SHORT" | XInv -> "INVALID" | XRaise -> "RAISE")
+  | ["specparse"; b] ->
+      String.concat ";" (List.map (fun (o, w) -> string_of_int (int_of_nat o) ^ ":" ^ show_w w) (spec_parse_pos (bytes_of_hex b)))
+  | ["specack"; q] -> hex_of_bytes (spec_ack_bytes (ni q))
+  | "rx" :: pseq :: ev :: opn :: buf :: chunks ->
+      let st0 = { rx_buf = bytes_of_hex buf; rx_pack_seq = ni pseq;
+                  rx_ack_event = (match ev with "n" -> None | "1" -> Some true | _ -> Some false);
+                  rx_open = (opn = "1") } in
+      let st = ref st0 in
+      let parts = List.map (fun c ->
+        let ((st1, outs), raised) = data_received (fun _ -> false) !st (bytes_of_hex c) in
+        st := st1;
+        (if raised then "RAISED;" else "") ^ String.concat ";" (List.map show_out outs)) chunks in
+      String.concat " / " parts ^ " // seq=" ^ si !st.rx_pack_seq ^ " ev=" ^
+        (match !st.rx_ack_event with None -> "n" | Some true -> "1" | Some false -> "0") ^
+        " buf=" ^ hex_of_bytes !st.rx_buf
   | _ -> Driver_ext.handle toks
 
 let () =
